@@ -271,8 +271,17 @@ def r_C01visitors(root):
     def rule_name_case(user_classes, provider, used=()):
         ev = []
         generic = HS({".kind": "cls", ".__name__": "generic class"})
-        mmr = HS({".kind": "metamodel", ".user_classes": dict(user_classes), ".user_classes_provider": provider, "._used_rule_names_for_user_classes": set(used), ".rootcls": None, ".debug": False,
-                  "._init_class": pyeval.PyFn(lambda *a_, **k_: ev.append(("init", a_, k_))), "._new_class": pyeval.PyFn(lambda *a_, **k_: (ev.append(("new", a_, k_)), generic)[1])})
+        mmr = HS({".kind": "metamodel", ".user_classes": dict(user_classes), ".user_classes_provider": provider, "._used_rule_names_for_user_classes": set(used), ".rootcls": None, ".debug": False})
+        # stand-ins with the documented effect of the root flag: _init_class(cls, ..., root=True) / _new_class(name, ..., root=True) make the class the root class
+        def _root_of(a_, k_, pos_): return bool(k_.get("root", a_[pos_] if len(a_) > pos_ else False))
+        def init_(*a_, **k_):
+            ev.append(("init", a_, k_))
+            if _root_of(a_, k_, 5): mmr[".rootcls"] = a_[0] if a_ else k_.get("cls")
+        def new_(*a_, **k_):
+            ev.append(("new", a_, k_))
+            if _root_of(a_, k_, 5): mmr[".rootcls"] = generic
+            return generic
+        mmr["._init_class"] = pyeval.PyFn(init_); mmr["._new_class"] = pyeval.PyFn(new_)
         vr_ = HS({".kind": "visitor", ".debug": False, ".metamodel": mmr, "._current_cls": None, ".dprint": pyeval.PyFn(lambda *a: None)})
         r = call("visit_rule_name", vr_, _NodeS({".kind": "node", ".value": "Thing", ".position": 11, ".position_end": 16}), [])
         return r, ev, mmr, vr_, generic
